@@ -96,9 +96,12 @@ int c_ensrank(double eps, int nval, int ncol, double* sim, \
                 else valuenext = value+1.;
                 index = ensemb[j][1];
 
-                /* Value differences */
-                diff = fabs(value-valueprev);
-                diffnext = fabs(value-valuenext);
+                /* Value differences. The first value always opens a new
+                 * sequence and the last one always closes it: this cannot
+                 * rely on value+1 differing from value, which is not the case
+                 * for large magnitudes. */
+                diff = j>0 ? fabs(value-valueprev) : eps;
+                diffnext = j<2*ncol-1 ? fabs(value-valuenext) : eps;
 
                 /* Start a tie sequence */
                 if(index<ncol && diff>=eps)
